@@ -27,6 +27,9 @@ SIGS = [
     ("x: A, n: int = 7, *, scale: float = 1.5, **kw", ["(X)", "(X, 8)", "(X, scale=2.0, mode='m')"]),
     ("x: A, *rest: int, **options: object", ["(X)", "(X, 1, 2)", "(X, k=1)", "(x=X)"]),
     ("*xs: int, x: A, **kw: str", ["(x=X)", "(1, 2, x=X, s='t')"]),
+    # surplus positionals next to omitted keyword-only defaults (as many as there are names left, fewer, more)
+    ("x: A, *rest, y: B = DEFAULT_Y", ["(X)", "(X, 1)", "(X, 1, 2)", "(X, Y)", "(X, 1, y=Y)"]),
+    ("x: A, *rest, y: B = DEFAULT_Y, flag: bool = False", ["(X, 1, 2)", "(X, Y, True)", "(X, 1)", "(X, flag=True)"]),
 ]
 
 
@@ -72,7 +75,7 @@ def impl_functions(_: dict) -> dict:
     # dispatchers): it must receive the call as the caller wrote it - same positional count, same keywords, no defaults filled in
     import functools
 
-    for params, calls in SIGS[:5] + SIGS[6:7]:
+    for params, calls in SIGS[:5] + SIGS[6:7] + SIGS[9:]:
         ns = dict(base)
         ns["CALLS"] = []
         ns["functools"] = functools
@@ -262,6 +265,23 @@ def impl_classes(_: dict) -> dict:
             chk(False, f"dataclass[{name}]: violating construction accepted")
         except dltype.DLTypeError:
             chk(True, "")
+    # inheritance between dataclasses: every field of a decorated class is validated, inherited ones included, whether or not
+    # the base class is decorated itself (same verdicts as the function form over (x, y))
+    bad_x, bad_y = np.zeros((2,), dtype=np.float32), np.zeros((4,), dtype=np.int32)
+    for K in (L.DerivedOfChecked, L.DerivedOfPlain):
+        try:
+            inst = K(X, Y)
+            chk(inst.x is X and inst.y is Y, f"{K.__name__}: fields differ")
+        except BaseException as e:  # noqa: BLE001
+            chk(False, f"{K.__name__}: conforming construction raised {type(e).__name__}: {e}")
+        for label, args in (("inherited field", (bad_x, Y)), ("own field", (X, bad_y)), ("own field vs inherited binding", (X, np.zeros((5,), dtype=np.int32)))):
+            try:
+                K(*args)
+                chk(False, f"{K.__name__}: a violating {label} was accepted")
+            except dltype.DLTypeError:
+                chk(True, "")
+            except BaseException as e:  # noqa: BLE001
+                chk(False, f"{K.__name__}: violating {label}: {type(e).__name__} instead of a DLTypeError")
     return {"n": n, "problems": problems}
 
 
